@@ -24,7 +24,9 @@ class Builtins:
     spec_builtins = {"forall", "exists", "implies", "old", "iff", "sum_if", "count_if", "fresh", "trace_len",
                      "trace_method", "trace_arg", "trace_kw", "trace_target", "ite", "same_list", "fmt", "is_none",
                      "list_eq", "sorted_desc_by", "iter_trace_len", "iter_trace_arg", "iter_trace_method",
-                     "iter_trace_kw", "has_key", "perm_of", "strcat", "old_len", "typename"}
+                     "iter_trace_kw", "has_key", "perm_of", "strcat", "old_len", "typename", "called", "iter_called",
+                     "out_len", "out_method", "out_arg", "out_kw", "call_result", "iter_call_result", "call_count",
+                     "iter_call_count"}
     type_names = {"ValueError", "KeyError", "IndexError", "TypeError", "Exception", "UnicodeDecodeError",
                   "StopIteration", "RuntimeError", "AttributeError", "OSError", "FileNotFoundError",
                   "NotImplementedError", "RecursionError", "AssertionError", "BaseException", "ZeroDivisionError",
@@ -46,6 +48,8 @@ class Builtins:
 
     def format_value(self, st, v, spec, conv, node):
         eng = self.eng
+        if isinstance(v, E.VOpt):
+            return z3.If(v.none, z3.StringVal("None"), self.format_value(st, v.inner, spec, conv, node))
         if isinstance(v, VStr) and spec == "":
             return v.t
         if isinstance(v, (VInt, VBool)) and not (isinstance(v, VBool)):
@@ -71,6 +75,8 @@ class Builtins:
             return VStr(z3.If(v.t, z3.StringVal("True"), z3.StringVal("False")))
         if isinstance(v, VNone):
             return VStr("None")
+        if isinstance(v, E.VOpt):
+            return VStr(z3.If(v.none, z3.StringVal("None"), self.to_str(st, v.inner, node).t))
         if isinstance(v, VObj):
             m = v.cls.find_method("__str__")
             if m is not None:
@@ -91,8 +97,8 @@ class Builtins:
             a = st.ext_attrs(v)
             if "$str" in a:
                 return a["$str"]
-            f = z3.Function("str_of_ext", z3.IntSort(), z3.StringSort())
-            return VStr(f(z3.IntVal(v.ident)))
+            f = z3.Function("str_of_ext_" + v.kind, z3.IntSort(), z3.StringSort())
+            return VStr(f(self.eng.ext_term(st, v)))
         if isinstance(v, E.VOpaque):
             f = z3.Function("str_of_any", z3.IntSort(), z3.StringSort())
             return VStr(f(v.t))
@@ -167,6 +173,10 @@ class Builtins:
             a = st.ext_attrs(base)
             if attr in a:
                 return a[attr]
+            sig = self.ext_sigs.get((base.kind, attr))
+            if sig is not None and sig.get("attr"):
+                from . import externals as X
+                return X.uninterp(self, st, f"{base.kind}.{attr}", [base], sig["ret"], node)
             schema = self.eng.reg.classes.get("ext:" + base.kind, {})
             if attr in schema:
                 v = self.eng.fresh_value(st, schema[attr], f"x_{base.kind}_{attr}")
@@ -978,22 +988,35 @@ class Builtins:
         return ent
 
     def count_sym_fn(self, st, comp):
+        """count_if is sum_if with the constant map 1: both share one symbol class (so that
+        make_count_profile's sums and len([... if p]) are the same term)."""
         x, t = self._abstract(st, comp, "pred")
-        ent = self._class_symbol(st, "count", x, t)
-        if "fn" not in ent:
+        ent = self._sum_entry(st, x, z3.simplify(z3.If(t, z3.IntVal(1), z3.IntVal(0))))
+        if not ent.get("count_ax"):
+            ent["count_ax"] = True
+            f = ent["fn"]
             asort = z3.ArraySort(z3.IntSort(), x.sort())
-            f = z3.Function(f"COUNT{ent['idx']}", asort, z3.IntSort(), z3.IntSort())
-            ent["fn"] = f
             a = z3.Const("ca!", asort)
             n = z3.Int("cn!")
-            body_t = z3.substitute(t, (x, z3.Select(a, n)))
-            self.eng.axioms.append(z3.ForAll([a], f(a, 0) == 0))
-            self.eng.axioms.append(z3.ForAll([a, n], z3.Implies(n >= 0, f(a, n + 1) == f(a, n) + z3.If(body_t, 1, 0)),
-                                             patterns=[f(a, n + 1)]))
             self.eng.axioms.append(z3.ForAll([a, n], z3.Implies(n >= 0, z3.And(f(a, n) >= 0, f(a, n) <= n)),
-                                             patterns=[f(a, n)]))
+                                             patterns=[f(a, n)]), keys={f.name()})
             self.eng.used_assumptions.add("lemma schema: 0 <= count_if(xs[:n]) <= n (induction on n, not re-proved)")
         return ent["fn"]
+
+    def _sum_entry(self, st, x, t):
+        eng = self.eng
+        ent = self._class_symbol(st, "sum", x, t)
+        if "fn" not in ent:
+            asort = z3.ArraySort(z3.IntSort(), x.sort())
+            f = z3.Function(f"SUM{ent['idx']}", asort, z3.IntSort(), z3.IntSort())
+            ent["fn"] = f
+            a = z3.Const("sa!", asort)
+            nn = z3.Int("sn!")
+            body_t = z3.substitute(ent["t"], (ent["x"], z3.Select(a, nn)))
+            eng.axioms.append(z3.ForAll([a], f(a, 0) == 0), keys={f.name()})
+            eng.axioms.append(z3.ForAll([a, nn], z3.Implies(nn >= 0, f(a, nn + 1) == f(a, nn) + body_t),
+                                        patterns=[f(a, nn + 1)]), keys={f.name()})
+        return ent
 
     def sum_sym(self, st, arr, n, map_fn, pred_fn, src_elem, state=None):
         eng = self.eng
@@ -1002,18 +1025,7 @@ class Builtins:
         xv = eng.wrap(s, x, src_elem)
         t_map = eng.as_int(map_fn(s, xv)) if map_fn is not None else x
         t_pred = pred_fn(s, xv) if pred_fn is not None else z3.BoolVal(True)
-        t = z3.If(t_pred, t_map, 0)
-        ent = self._class_symbol(st, "sum", x, z3.simplify(t))
-        if "fn" not in ent:
-            asort = z3.ArraySort(z3.IntSort(), x.sort())
-            f = z3.Function(f"SUM{ent['idx']}", asort, z3.IntSort(), z3.IntSort())
-            ent["fn"] = f
-            a = z3.Const("sa!", asort)
-            nn = z3.Int("sn!")
-            body_t = z3.substitute(ent["t"], (ent["x"], z3.Select(a, nn)))
-            eng.axioms.append(z3.ForAll([a], f(a, 0) == 0))
-            eng.axioms.append(z3.ForAll([a, nn], z3.Implies(nn >= 0, f(a, nn + 1) == f(a, nn) + body_t),
-                                        patterns=[f(a, nn + 1)]))
+        ent = self._sum_entry(st, x, z3.simplify(z3.If(t_pred, t_map, 0)))
         return ent["fn"](arr, n)
 
     def comp_first(self, st, comp, node):
@@ -1060,10 +1072,10 @@ class Builtins:
             rng = z3.And(qs[0] >= eng.as_int(lo), qs[0] < eng.as_int(hi))
         else:
             rng = z3.And(qs[0] >= eng.as_int(lo), qs[0] < qs[1], qs[1] < eng.as_int(hi))
-        # side facts (len >= 0, well-formed reads) are assumptions about the heap, valid for all q
+        # side facts (len >= 0, well-formed reads) are heap facts about the elements in range
         for p in side:
             if any(self._mentions(p, q) for q in qs):
-                st.assume(z3.ForAll(qs, p))
+                st.assume(z3.ForAll(qs, z3.Implies(rng, p)))
             else:
                 st.assume(p)
         return VBool(z3.ForAll(qs, z3.Implies(rng, body)))
@@ -1078,7 +1090,7 @@ class Builtins:
         side = st.pc[mark:]
         del st.pc[mark:]
         for p in side:
-            st.assume(z3.ForAll([q], p) if self._mentions(p, q) else p)
+            st.assume(z3.ForAll([q], z3.Implies(z3.And(q >= eng.as_int(lo), q < eng.as_int(hi)), p)) if self._mentions(p, q) else p)
         return VBool(z3.Exists([q], z3.And(q >= eng.as_int(lo), q < eng.as_int(hi), body)))
 
     def sp_implies(self, st, args, kwargs, node):
@@ -1156,9 +1168,82 @@ class Builtins:
             return VStr(v.cls.name)
         return VStr(type(v).__name__)
 
-    # ghost output trace
+    def _called(self, st, tr, name, node):
+        for ev in tr:
+            if isinstance(ev, LoopSegment):
+                if name in getattr(ev, "calls", ()) or getattr(ev, "calls", None) is None:
+                    raise E.Unsupported(f"called({name}) cannot be decided: possibly called inside a loop", node)
+            elif ev.target == "call" and ev.method == name:
+                return True
+        return False
+
+    def _call_events(self, st, tr, name, node):
+        out = []
+        for ev in tr:
+            if isinstance(ev, LoopSegment):
+                if getattr(ev, "calls", None) is None or name in ev.calls:
+                    raise E.Unsupported(f"calls of {name} cannot be enumerated: possibly called inside a loop", node)
+            elif ev.target == "call" and ev.method == name:
+                out.append(ev)
+        return out
+
+    def sp_call_result(self, st, args, kwargs, node):
+        evs = self._call_events(st, st.trace, args[0].concrete(), node)
+        if not evs or evs[-1].result is None:
+            raise SpecFalse("no such call")
+        return evs[-1].result
+
+    def sp_iter_call_result(self, st, args, kwargs, node):
+        evs = self._call_events(st, st.ghost.get("iter_trace", []), args[0].concrete(), node)
+        if not evs or evs[-1].result is None:
+            raise SpecFalse("no such call")
+        return evs[-1].result
+
+    def sp_call_count(self, st, args, kwargs, node):
+        return VInt(len(self._call_events(st, st.trace, args[0].concrete(), node)))
+
+    def sp_iter_call_count(self, st, args, kwargs, node):
+        return VInt(len(self._call_events(st, st.ghost.get("iter_trace", []), args[0].concrete(), node)))
+
+    def sp_called(self, st, args, kwargs, node):
+        return VBool(self._called(st, st.trace, args[0].concrete(), node))
+
+    def sp_iter_called(self, st, args, kwargs, node):
+        return VBool(self._called(st, st.ghost.get("iter_trace", []), args[0].concrete(), node))
+
+    # ghost output trace: `trace_*` index all events; `out_*` index output events only (no call markers)
+    def _outs(self, st):
+        return [e for e in st.trace if isinstance(e, LoopSegment) or e.target != "call"]
+
+    def sp_out_len(self, st, args, kwargs, node):
+        return VInt(len(self._outs(st)))
+
+    def sp_out_method(self, st, args, kwargs, node):
+        outs = self._outs(st)
+        t = z3.simplify(self.eng.as_int(args[0]))
+        if z3.is_int_value(t):
+            k = t.as_long()
+            if k < 0:
+                k += len(outs)
+            if 0 <= k < len(outs) and isinstance(outs[k], LoopSegment):
+                return VStr("<loop>")
+            if not (0 <= k < len(outs)):
+                return VStr("<none>")
+        return VStr(self._tidx(st, args[0], outs, node).method)
+
+    def sp_out_arg(self, st, args, kwargs, node):
+        ev = self._tidx(st, args[0], self._outs(st), node)
+        j = z3.simplify(self.eng.as_int(args[1])).as_long()
+        if j >= len(ev.args):
+            raise SpecFalse("trace event has fewer arguments")
+        return ev.args[j]
+
+    def sp_out_kw(self, st, args, kwargs, node):
+        ev = self._tidx(st, args[0], self._outs(st), node)
+        return ev.kwargs.get(args[1].concrete(), VNone())
+
     def _trace(self, st):
-        return st.trace
+        return [e for e in st.trace if isinstance(e, LoopSegment) or e.target != "call"]
 
     def _tidx(self, st, a, tr, node):
         t = z3.simplify(self.eng.as_int(a))
@@ -1197,21 +1282,24 @@ class Builtins:
         ev = self._tidx(st, args[0], self._trace(st), node)
         return ev.target if isinstance(ev.target, V) else VStr(str(ev.target))
 
+    def _iter_outs(self, st):
+        return [e for e in st.ghost.get("iter_trace", []) if isinstance(e, LoopSegment) or e.target != "call"]
+
     def sp_iter_trace_len(self, st, args, kwargs, node):
-        return VInt(len(st.ghost.get("iter_trace", [])))
+        return VInt(len(self._iter_outs(st)))
 
     def sp_iter_trace_method(self, st, args, kwargs, node):
-        return VStr(self._tidx(st, args[0], st.ghost.get("iter_trace", []), node).method)
+        return VStr(self._tidx(st, args[0], self._iter_outs(st), node).method)
 
     def sp_iter_trace_arg(self, st, args, kwargs, node):
-        ev = self._tidx(st, args[0], st.ghost.get("iter_trace", []), node)
+        ev = self._tidx(st, args[0], self._iter_outs(st), node)
         j = z3.simplify(self.eng.as_int(args[1])).as_long()
         if j >= len(ev.args):
             raise SpecFalse("trace event has fewer arguments")
         return ev.args[j]
 
     def sp_iter_trace_kw(self, st, args, kwargs, node):
-        ev = self._tidx(st, args[0], st.ghost.get("iter_trace", []), node)
+        ev = self._tidx(st, args[0], self._iter_outs(st), node)
         nm = args[1].concrete()
         return ev.kwargs.get(nm, VNone())
 
